@@ -82,8 +82,8 @@ CHECKS = {
             'Wildcard typestate guard analysis on the CFG, interprocedural set-order leak dataflow in the search '
             'algorithms',
   text='G1-G8 quantify over every rule of the MFL grammar, every feature class and every method of the algebra, '
-       'where a test only samples a few strings: they decide that no statement kind or mode silently falls to lark's '
-       'default handler, that the four spellings of each mode alphabet are the same set, that equality is a '
+       'where a test only samples a few strings: they decide that no statement kind or mode silently falls to the '
+       'default lark handler, that the four spellings of each mode alphabet are the same set, that equality is a '
        'boolean symmetric relation over all attributes, that +,- and printing keep every attribute, that `*` is '
        'never iterated unguarded, and that no candidate list is paired positionally with a set.',
   note='Not decided: counts of enumerated candidates (Bell numbers, power sets), stepwise path rules, algebraic laws '
